@@ -52,6 +52,13 @@ class Stub:
         return f'<{self._cls.split(".")[-1]} {self._attrs}>'
 
 
+class Hook:
+    """A checker-supplied callable placed in a stub attribute (stands for a method the rule abstracts away)."""
+
+    def __init__(self, fn):
+        self.fn = fn
+
+
 class Bound:
     def __init__(self, recv: Any, fn: FuncInfo):
         self.recv = recv
@@ -134,9 +141,13 @@ class ModelInterp(MiniEval):
                 return base.attrs[attr]
             return Bound(base, None)  # type: ignore[arg-type]
         if isinstance(base, ClassRef):
-            if attr == '__name__':
+            if attr in ('__name__', '__qualname__'):
                 return base.q.split('.')[-1]
+            if attr == '__bases__':
+                return tuple(ClassRef(b) for b in self.a.ct.bases(base.q))
             return self.class_attr(None, base.q, attr)
+        if isinstance(base, (FuncRef, Bound)) and attr == '__name__':
+            return base.fn.name
         if isinstance(base, Obj) and not attr.startswith('__'):
             if hasattr(base, attr):
                 return getattr(base, attr)
@@ -233,6 +244,9 @@ class ModelInterp(MiniEval):
             recv = self.expr(f.value, env)
             if isinstance(recv, (Stub, Recorder, ClassRef)):
                 target = self.get_attr(recv, f.attr)
+                if isinstance(target, Hook):
+                    args, kwargs = self._args(e, env)
+                    return target.fn(*args, **kwargs)
                 args, kwargs = self._args(e, env)
                 if isinstance(recv, Recorder):
                     return self.record(recv, f.attr, args, kwargs)
@@ -242,7 +256,7 @@ class ModelInterp(MiniEval):
                 fv = self.lookup(f.id, env)
             except Unsupported:
                 fv = None
-            if isinstance(fv, (FuncRef, ClassRef, Bound)):
+            if isinstance(fv, (FuncRef, ClassRef, Bound, Hook)):
                 args, kwargs = self._args(e, env)
                 return self.apply(fv, args, kwargs)
             if f.id in ('isinstance',):
@@ -256,9 +270,15 @@ class ModelInterp(MiniEval):
                 v = self.expr(e.args[0], env)
                 if isinstance(v, Stub):
                     return v._cls.split('.')[-1]
+            if f.id == 'callable' and len(e.args) == 1:
+                v = self.expr(e.args[0], env)
+                if isinstance(v, (FuncRef, Bound, Hook, ClassRef)):
+                    return True
+                if v is None or isinstance(v, (str, int, float, tuple, list, dict, Stub)):
+                    return False
             if f.id == 'getattr':
                 args, _ = self._args(e, env)
-                if isinstance(args[0], (Stub, Recorder)) and isinstance(args[1], str):
+                if isinstance(args[0], (Stub, Recorder, ClassRef)) and isinstance(args[1], str):
                     try:
                         return self.get_attr(args[0], args[1])
                     except Unsupported:
@@ -267,6 +287,8 @@ class ModelInterp(MiniEval):
                         raise
             if f.id == 'hasattr':
                 args, _ = self._args(e, env)
+                if not isinstance(args[0], (Stub, Recorder, ClassRef, Obj)):
+                    return hasattr(args[0], args[1]) if isinstance(args[0], (str, int, float, tuple, list, dict, type(None))) else False
                 if isinstance(args[0], Stub):
                     try:
                         self.get_attr(args[0], args[1])
@@ -314,6 +336,8 @@ class ModelInterp(MiniEval):
             return self.call_fn(target.fn, args, kwargs)
         if isinstance(target, ClassRef):
             return self.construct(target, args, kwargs)
+        if isinstance(target, Hook):
+            return target.fn(*args, **kwargs)
         raise Unsupported(f'call of {target!r}')
 
     def call_bound(self, b: Bound, args: list, kwargs: dict) -> Any:
